@@ -1,4 +1,4 @@
-_X = ('xfer', 40, 800)
+_X = ('xfer', 40, 800, [2000027])   # corpus seed: PTO backoff of futile Handshake probes carried into the Data space (fixed in b80cd3d)
 _M = ('migrate', 12, 200, [3000061])   # corpus seed: stall after a failed path validation (fixed in 8371620)
 PROPS = {
     'C02': dict(sim=[_X, _M],
